@@ -296,6 +296,21 @@ def _post(p):
             "lh": {"set": p["lh"]["set"], "rest": list(p["lh"]["rest"])}, "yielded": list(p["yielded"])}
 
 
+def trace_of_states(states):
+    """The trace a faithful implementation would record for a behaviour of the specification (binding self-tests)."""
+    events = []
+    for s in states[1:]:
+        sv = spec_view(s)
+        act = s["act"]
+        ev = {"e": act["name"], "arg": act["arg"], "out": list(act["out"]), "post": _post(sv),
+              "reads": {"cur": list(sv["reads"]["current_rows"]), "one": list(sv["reads"]["one"]),
+                        "more": sv["reads"]["has_more_pages"], "ps": sv["reads"]["paging_state"]}}
+        if act["name"] == "Execute":
+            ev["layout"] = list(s["layout"])
+        events.append(ev)
+    return events
+
+
 PROGRAMS = ("iterate", "list", "manual", "index", "eq", "iter_then_list", "manual_then_iter", "index_then_iter", "random")
 
 
